@@ -247,7 +247,7 @@ def write_evidence(pid, P, tier, seed, results, obligations, discharged, smt_ms,
                 per_fn.setdefault(c['owner'], []).append('%s[%s]: %s' % (c['kind'], ','.join(c['tags']), ' '.join(c['expr'].split())))
             sha = {i['key']: i['sha256'] for i in m.get('items', [])}
             for owner, cl in per_fn.items():
-                fns.append({'function': owner, 'unit': s['unit'], 'back_end': 'verus/z3', 'clauses': cl})
+                fns.append({'function': owner, 'unit': s['unit'], 'back_end': 'verus/z3', 'clauses': cl, 'source_tokens_sha256': sha.get(owner)})
             for owner, cl in list(per_fn.items())[:3]:
                 samples.append({'unit': s['unit'], 'function': owner, 'obligation': cl[0]})
             for t in m.get('trusted_scan', []):
@@ -259,7 +259,7 @@ def write_evidence(pid, P, tier, seed, results, obligations, discharged, smt_ms,
                           'smt_ms': r.get('smt_ms'), 'wall_s': r['wall_s'], 'cmd': r['cmd'],
                           'extracted_items': len(m.get('items', [])), 'fidelity': m.get('fidelity'),
                           'dropped_items': len(m.get('dropped', [])), 'rewrites': len(m.get('rewrites', [])),
-                          'source_sha256': {k: v for k, v in list(sha.items())[:0]}})
+                          'assumed_or_trusted_in_generated_file': len(m.get('trusted_scan', []))})
             for d in m.get('dropped', [])[:400]:
                 dropped.append('%s: %s' % (d['key'], d['why']))
         else:
